@@ -83,6 +83,15 @@ def _side(ctx):
     return _SIDE[key]
 
 
+def _side_or_none(ctx):
+    """the translator's table, or None when the translator refused the source (fail-closed: gen_files has
+    already reported that as a broken obligation; the dynamic check still runs)"""
+    try:
+        return _side(ctx)[0]
+    except Exception:
+        return None
+
+
 def gen_files(ctx):
     side, text = _side(ctx)
     pub = [e for e in side["functions"] if e["public"]]
@@ -590,20 +599,85 @@ def _rng_digest():
 
 # =========================================================================== running calls
 
-def _exec_call(cat, call, pool):
+def _ser(v, depth=0):
+    """result -> JSON-able tree with exact array contents (for the cross-layout comparison)"""
+    if isinstance(v, np.ndarray):
+        if v.dtype == object:
+            return ["L", [_ser(x, depth + 1) for x in v.ravel().tolist()]]
+        return ["A", v.dtype.str, list(v.shape), np.ascontiguousarray(v).tobytes().hex()]
+    if isinstance(v, np.generic):
+        return ["A", v.dtype.str, [], v.tobytes().hex()]
+    if isinstance(v, (list, tuple)):
+        return ["L", [_ser(x, depth + 1) for x in v]]
+    if isinstance(v, dict):
+        return ["L", [["L", [_ser(k, depth + 1), _ser(v[k], depth + 1)]] for k in sorted(v, key=repr)]]
+    if isinstance(v, bool) or v is None or isinstance(v, (int, str)):
+        return ["S", repr(v)]
+    if isinstance(v, float):
+        return ["A", "<f8", [], np.float64(v).tobytes().hex()]
+    if isinstance(v, complex):
+        return ["A", "<c16", [], np.complex128(v).tobytes().hex()]
+    if hasattr(v, "tocoo") and hasattr(v, "shape"):
+        return _ser(np.asarray(v.todense()), depth + 1)
+    if hasattr(v, "__dict__") and depth < 4:
+        return _ser({k: x for k, x in vars(v).items() if not callable(x)}, depth + 1)
+    return ["S", repr(v)]
+
+
+def _ser_cmp(a, b, path="result"):
+    """None when equal bit for bit; ('rounding', where) when only floating-point values differ within 1e-6
+    relative to the largest magnitude; ('different', where) otherwise"""
+    if a[0] != b[0]:
+        return ("different", "%s: kind %s vs %s" % (path, a[0], b[0]))
+    if a[0] == "S":
+        return None if a[1] == b[1] else ("different", "%s: %s vs %s" % (path, a[1][:40], b[1][:40]))
+    if a[0] == "L":
+        if len(a[1]) != len(b[1]):
+            return ("different", "%s: length %d vs %d" % (path, len(a[1]), len(b[1])))
+        worst = None
+        for i, (x, y) in enumerate(zip(a[1], b[1])):
+            r = _ser_cmp(x, y, "%s[%d]" % (path, i))
+            if r and r[0] == "different":
+                return r
+            worst = worst or r
+        return worst
+    if a[1] != b[1] or a[2] != b[2]:
+        return ("different", "%s: dtype/shape %s%s vs %s%s" % (path, a[1], a[2], b[1], b[2]))
+    if a[3] == b[3]:
+        return None
+    x = np.frombuffer(bytes.fromhex(a[3]), np.dtype(a[1])).reshape(a[2])
+    y = np.frombuffer(bytes.fromhex(b[3]), np.dtype(b[1])).reshape(b[2])
+    if x.dtype.kind not in "fc":
+        return ("different", "%s: %d of %d %s element(s) differ" % (path, int(np.sum(x != y)), x.size, x.dtype))
+    if not np.array_equal(np.isnan(x), np.isnan(y)) or not np.array_equal(np.isinf(x), np.isinf(y)):
+        return ("different", "%s: NaN/inf pattern differs" % path)
+    fin = np.isfinite(x) & np.isfinite(y)
+    if np.any(np.isinf(x) & (x != y)):
+        return ("different", "%s: infinities of opposite sign" % path)
+    scale = max(float(np.max(np.abs(x[fin]))) if np.any(fin) else 0.0, 1e-300)
+    err = float(np.max(np.abs(x[fin] - y[fin]))) if np.any(fin) else 0.0
+    if err <= 1e-6 * scale:
+        return ("rounding", "%s: max deviation %.3g of scale %.3g" % (path, err, scale))
+    return ("different", "%s: float values differ by %.3g (scale %.3g)" % (path, err, scale))
+
+
+def _exec_call(cat, call, pool, ser=False):
     key, si = call
     ent = cat[key]
     args = [pool["%s%d" % (r, si)] for r in ent[2]]
     try:
         r = ent[3](*args)
-        return {"res": digest(r), "brief": _brief(r)[:160]}
+        rec = {"res": digest(r), "brief": _brief(r)[:160]}
+        if ser:
+            rec["ser"] = _ser(r)
+        return rec
     except BaseException as e:                      # noqa: an exception is an observable outcome
         if isinstance(e, (KeyboardInterrupt, SystemExit)):
             raise
         return {"exc": type(e).__name__, "msg": str(e)[:160]}
 
 
-def _run_history(case, only=None, scramble=None, writable=False, light=False):
+def _run_history(case, only=None, scramble=None, writable=False, light=False, canon=False, ser=False):
     """run the calls of the case (or only call number `only`) in this process; per call: result digest,
     input differences, module-state changes, generator state"""
     cat = {c[0]: c for c in catalog()}
@@ -614,6 +688,9 @@ def _run_history(case, only=None, scramble=None, writable=False, light=False):
     if only is not None:
         key, si = case["calls"][only]
         only_keys = {"%s%d" % (r, si) for r in cat[key][2]}
+    if canon:                                   # same values and dtypes, every array C-contiguous and writable
+        case = dict(case)
+        case["lay"] = {k: "C" for k in case["lay"]}
     pool, bases = build_pool(case, writable=writable, only_keys=only_keys)
     case_layout.clear()
     case_layout.update(case["lay"])
@@ -625,7 +702,7 @@ def _run_history(case, only=None, scramble=None, writable=False, light=False):
     ms0 = None if light else _module_state()
     for k, call in calls:
         r0 = _rng_digest()
-        rec = _exec_call(cat, call, pool)
+        rec = _exec_call(cat, call, pool, ser=ser)
         rec["mut"] = _input_diff(pool, bases, snap)
         if not light:
             ms1 = _module_state()
@@ -737,18 +814,46 @@ def impl(case):
     _ensure_imported()
     _LAZY = set(case.get("lazy", [])) or None
     n = len(case["calls"])
+    cat = {c[0]: c for c in catalog()}
+    # calls whose inputs are not all C-contiguous get a third run, alone in a pristine fork, on C-contiguous
+    # twins of the same values: the result must not depend on the memory layout either
+    twin = []
+    for k, (key, si) in enumerate(case["calls"]):
+        used = ["%s%d" % (r, si) for r in cat[key][2]]
+        if any(case["lay"][u] in ("F", "view") for u in used):
+            twin.append(k)
     jobs = [lambda: _run_history(case)]
     for k in range(n):
-        jobs.append(lambda k=k: _run_history(case, only=k, scramble=case["scramble"] + 7919 * (k + 1), light=True)[0])
+        jobs.append(lambda k=k: _run_history(case, only=k, scramble=case["scramble"] + 7919 * (k + 1), light=True,
+                                             ser=k in twin)[0])
+    for k in twin:
+        jobs.append(lambda k=k: _run_history(case, only=k, scramble=case["scramble"] + 104729 * (k + 1), light=True,
+                                             canon=True, ser=True)[0])
     res = _parallel(jobs, width=int(os.environ.get("C20_WIDTH", "4")), timeout=CASE_TIMEOUT // 2)
-    hist, refs = res[0], res[1:]
-    out = {"hist": hist, "refs": refs, "probes": {}}
+    hist, refs, canon = res[0], res[1:n + 1], res[n + 1:]
+    out = {"hist": hist, "refs": refs, "probes": {}, "layout": {}}
+    for k, c in zip(twin, canon):
+        r = refs[k]
+        if not (isinstance(r, dict) and isinstance(c, dict)):
+            continue
+        if "ser" in r and "ser" in c:
+            d = _ser_cmp(r["ser"], c["ser"])
+            out["layout"][str(k)] = list(d) if d else ["same", ""]
+        elif "exc" in r and "ser" in c:
+            out["layout"][str(k)] = ["rejected", "%s: %s" % (r["exc"], r.get("msg", "")[:80])]
+        elif "ser" in r and "exc" in c:
+            out["layout"][str(k)] = ["different", "raises %s on C-contiguous input only" % c["exc"]]
+        elif "exc" in r and "exc" in c:
+            out["layout"][str(k)] = ["same", "both raise"] if r["exc"] == c["exc"] else \
+                ["rejected", "%s vs %s" % (r["exc"], c["exc"])]
+    for r in refs:
+        if isinstance(r, dict):
+            r.pop("ser", None)
     # a read-only input that made the call raise: repeat the call alone with writable twins and look
     # for the write the flag turned into an exception
     if isinstance(hist, list):
         ro_keys = {k for k, l in case["lay"].items() if l == "ro"}
         todo = []
-        cat = {c[0]: c for c in catalog()}
         for k, rec in enumerate(hist):
             if "exc" in rec:
                 key, si = case["calls"][k]
@@ -797,7 +902,7 @@ def _mk_case(ctx, rng, cat, calls=None, length=None, shapes=None):
             else:
                 key = cat[int(rng.randint(len(cat)))][0]
                 calls.append([key, int(rng.randint(2))])
-    side = _side(ctx)[0] if ctx is not None else None
+    side = _side_or_none(ctx) if ctx is not None else None
     return {"seed": int(rng.randint(1 << 30)), "scramble": int(rng.randint(1 << 30)), "shapes": shapes,
             "dt": dt, "lay": lay, "calls": calls,
             "lazy": side["lazy"] if side else []}
@@ -828,7 +933,7 @@ def generate(ctx):
             if f.endswith(".json"):
                 with open(os.path.join(corpus, f)) as fh:
                     c = json.load(fh)
-                c["lazy"] = _side(ctx)[0]["lazy"]
+                c["lazy"] = (_side_or_none(ctx) or {"lazy": []})["lazy"]
                 cases.append(c)
                 ctx.count("corpus")
     # every catalog entry at least once per run: short histories (entry on set 0, entry on set 1)
@@ -890,7 +995,9 @@ def search_cases(ctx, rnd):
     random batch"""
     cat = _catalog_index(ctx)
     rng = ctx.rng
-    side = _side(ctx)[0]
+    side = _side_or_none(ctx)
+    if side is None:
+        return [_mk_case(ctx, rng, cat) for _ in range(200)]
     if rnd == 0:
         try:
             pairs, alone = _model_witnesses(ctx)
@@ -941,6 +1048,10 @@ def search_cases(ctx, rnd):
 
 # =========================================================================== the property
 
+# calls left out of the layout-independence clause (none so far); each exclusion is counted in the evidence
+LAYOUT_EXCLUDED = {}
+
+
 def _bad(o):
     return (not isinstance(o, dict)) or "exc" in o or "crash" in o or "hist" not in o
 
@@ -976,6 +1087,11 @@ def _check_one(case, out):
         a, b = _outcome(rec), _outcome(ref)
         if a.startswith("crash") or b.startswith("crash") or b == "missing":
             return "call %d (%s) crashed the interpreter: in history %s, fresh %s" % (k, name, a, b)
+        lay = out.get("layout", {}).get(str(k))
+        if a == b and lay and lay[0] == "different" and call[0] not in LAYOUT_EXCLUDED:
+            used = {u: case["lay"][u] for u in case["lay"] if u[-1] == str(call[1]) and case["lay"][u] in ("F", "view")}
+            return ("call %d (%s) depends on the memory layout of its inputs: on %s it gives %s, on C-contiguous arrays "
+                    "of the same values and dtypes something else (%s)" % (k, name, used, rec.get("brief", "")[:80], lay[1][:160]))
         if a != b:
             prev = [c[0] for c in case["calls"][:k]]
             how = ("depends on the call history: after %s" % prev) if prev else \
@@ -1037,6 +1153,12 @@ def check(ctx, cases, outs):
             ctx.count("calls")
             if "exc" in rec:
                 ctx.count("calls.rejected_consistently")
+        for k, lay in o.get("layout", {}).items():
+            ctx.count("layout_twin." + lay[0])
+            if lay[0] == "rounding":
+                ctx.count("layout_twin.rounding." + c["calls"][int(k)][0])
+            if lay[0] == "different" and c["calls"][int(k)][0] in LAYOUT_EXCLUDED:
+                ctx.count("layout_twin.excluded." + c["calls"][int(k)][0])
     return res
 
 
@@ -1061,6 +1183,9 @@ def _fid_map(ctx):
 
 def model(ctx, cases, outs):
     from harness import core
+    if _side_or_none(ctx) is None:
+        _SIDE_LAST.clear()
+        return [{"model_error": "the translator refused the source"}] * len(cases)
     _prime(ctx)
     with core.CoqLock():
         core.coq_make([EXTRACT[0][:-2] + ".vo"], timeout=900, jobs=4)
@@ -1123,7 +1248,9 @@ def kernel_crosscheck(ctx, cases, outs):
     """(a) the rows of the table the proofs are about, read back through the extracted program, equal
     the translator's JSON; (b) the extracted checker accepts the table; (c) vm_compute evaluation
     of entry_run equals the extracted program on a sub-sample of the histories"""
-    side = _side(ctx)[0]
+    side = _side_or_none(ctx)
+    if side is None:
+        return "the translator refused the source: no generated table to cross-check", 0
     fns = side["functions"]
     rows = ctx.run_model("entry_sig", [e["id"] for e in fns])
     for e, r in zip(fns, rows):
